@@ -35,9 +35,33 @@ def yo(d):
     return d.year, d.timetuple().tm_yday
 
 
+def header_time_fields(ctx, rng, n):
+    """the numbers the issue-time computation starts from are the header's own JJJHHMM and TTTT fields, wherever the '+' sits:
+    generated headers (1..31 locations, callsigns of 3..8 characters) through the header accessors of model and implementation,
+    against the fields cut out of the text"""
+    from props import C06
+    import samegen
+    lines, want = [], []
+    for _ in range(n):
+        H = samegen.gen_header(rng, nloc=rng.choice([1, 1, 2, 7, 31]), calllen=rng.range(3, 8))
+        lines.append("hdr " + vlib.hx(H)); want.append(C06.oracle_hdr(H))
+    mo = vlib.run_lines(vlib.MODELRUN, lines); im = vlib.run_lines(vlib.IMPLRUN, lines)
+    ok = 0
+    for l, a, b_, w in zip(lines, mo, im, want):
+        if a != b_ and "PANIC" not in a + b_:
+            ctx.violation("correspondence", "header accessors: model and implementation differ", {"input": l, "model": a[:300], "impl": b_[:300]})
+        elif b_ != w:
+            ctx.violation("property", "issue day/time or validity fields of an accepted header are not the JJJHHMM / TTTT fields of its text: "
+                          "got %s" % b_[-90:], {"input": l, "impl": b_[:400], "expected": w[:400]})
+        else:
+            ok += 1
+    return ok
+
+
 def run(ctx):
     quick = ctx.quick
     rng = ctx.rng.fork("C15")
+    ctx.coverage["header_time_fields_ok"] = header_time_fields(ctx, rng.fork("hdr"), 200 if quick else 5000)
     if quick:
         centres = [2000, 2100, 2024, 1972, rng.range(1973, 2197)]
         years = sorted(set(y for c in centres for y in (c - 1, c, c + 1)))
